@@ -48,3 +48,32 @@ def run(rep, tier, seed, replay=None):
         c, what = netcases.mutate(v.case(), rnd)
         hostile.append(c.line(f"{v.id}m{k}"))
     vlib.correspond(rep, hostile, oracle=lambda c, i, m, p: ([("wrong-ip", "wrong IP")] if "@WRONGIP" in i else []), trivial=netprops.trivial, tag="c09")
+    # ---- the HTTP game (Eco): the request goes to the CALLER's address whatever host name the request settings carry (the
+    # name only fills the Host header).  Real HTTP client against a listener on 127.0.0.2 — an address no loopback name
+    # resolves to; names the URL parser rewrites (upper case, short IPv4 forms) included.  Implementation only: the HTTP
+    # client is a parameter of the model.
+    NAMES = [("eco.example", "eco.example"), ("LocalHost", "localhost"), ("Play.Eco.Example", "play.eco.example"),
+             ("127.1", "127.0.0.1"), ("localhost", "localhost"), ("0x7f.1", "127.0.0.1"), ("ECO", "eco")]
+    ecov = [v for v in netprops.valid_cases("eco", seed + 9, 40) if not v.notwf and v.want.startswith("OK") and v.line.split(" ")[1] == "eco"]
+    lines, meta = [], {}
+    for k, (name, header) in enumerate(NAMES if tier == "thorough" else NAMES[:5]):
+        if not ecov:
+            break
+        v = ecov[k % len(ecov)]
+        c = v.case()
+        cid = f"{v.id}host{k}"
+        lines.append(f"{cid} eco_host {name.encode().hex()} {c.args[1]} {c.fmt_script()}")
+        meta[cid] = (v, name, header)
+    impl, panics = vlib.run_impl(lines, tag="c09h") if lines else ({}, {})
+    for l in lines:
+        cid = l.split(" ", 1)[0]
+        v, name, header = meta[cid]
+        out = impl.get(cid, "")
+        rep.seen(l[:300], out[:300])
+        rep.count("eco-host-name")
+        parts = out.split(" ;; ")
+        arrived = len(parts) > 1 and parts[1].startswith("H:GET_/frontpage_HTTP/1.1|")
+        host_ok = arrived and parts[1].split("|", 1)[1].split(" ")[0].lower() == f"host:_{header}:p"
+        if vlib.result_of(out) != v.want or not arrived or not host_ok:
+            rep.oracle_failures.append(("request-destination:eco", f"host name {name!r}: the request must reach the queried address with Host {header}; got {out[:200]}", l[:2000], out[:300]))
+
